@@ -485,13 +485,14 @@ bool encode_array::shift(size_t len)
 	// move data segment to front
 	if (!len) {
 		size_t max, len = _state.done + _state.scratch;
-		if ((max = _d.length() <= len)) {
+		if ((max = _d.length()) <= len) {
 			return false;
 		}
 		uint8_t *d = reinterpret_cast<uint8_t *>(_d.base());
 		size_t shift = max - len;
-		memcpy(d, d + shift, len);
-		_d.set(len);
+		memmove(d, d + shift, len);
+		// keep moved content, array::set() would clear it
+		const_cast<array::content *>(_d.data())->set_length(len);
 		return true;
 	}
 	// consume terminated data
